@@ -332,6 +332,7 @@ def _classify_source(expr, ptypes):
 
 def rule_d1(toks, log):
     ptypes = _fn_param_types(toks)
+    ptypes['\0rchunks'] = _rchunks_locals(toks)
     counter = [0]
 
     def rewrite(ts):
@@ -400,9 +401,27 @@ def _lower_for(pat, expr, loop_ann, body, n, ptypes, log):
             e = s
             continue
         break
+    # D1f (shape-checked): `SRC . take ( N )` with N one identifier and SRC a zip of two slice iterators (checked below):
+    # `Iterator::take` stops after N items (core definition, trusted as for D1) ==> the index bound is min(bound of SRC, N)
+    take_n = None
+    if len(e) >= 5 and _is(e[-1], ')') and e[-2][0] == 'id' and not e[-2][2] and _is(e[-3], '(') and _is(e[-4], 'take') \
+            and _is(e[-5], '.') and not rev and not enum:
+        take_n = e[-2][1]
+        e = e[:-5]
     # strip one level of parentheses
     while len(e) >= 2 and _is(e[0], '(') and _match_close(e, 0) == len(e) - 1:
         e = e[1:-1]
+    if take_n is not None and not (len(e) >= 4 and _is(e[-1], ')') and any(_is(t, 'zip') for t in e)):
+        raise Unsupported('D1f: take() on something else than a zip of slice iterators: ' + orig)
+    # D1e: `for P in G . rev ( )` with G a local bound by `let G = X . rchunks ( N ) ;` (see rule_d1e)
+    if len(e) == 1 and e[0][0] == 'id' and e[0][1] in ptypes.get('\0rchunks', ()):
+        if not rev or enum:
+            raise Unsupported('D1e: an RChunks local is only supported as `for P in G.rev()`: ' + orig)
+        g = e[0][1]
+        log.append('D1e `%s` -> index while loop (%s): item k is `%s.__from_front(k)`, %s.len() items' % (orig, iv, g, g))
+        head = toks_of('let %s = %s . len ( ) ; let mut %s : usize = 0 ; while %s < %s' % (nv, g, iv, iv, nv), False)
+        inner = toks_of('let %s = %s . __from_front ( %s ) ; %s += 1 ;' % (_txt(pat), g, iv, iv), False)
+        return head + loop_ann + [T('p', '{')] + inner + body + [T('p', '}')]
     pre = []
     # --- ranges
     parts = None
@@ -489,6 +508,11 @@ def _lower_for(pat, expr, loop_ann, body, n, ptypes, log):
         src = 'let %s = %s ;' % (nv, lens[0])
     else:
         src = 'let %s = if %s < %s { %s } else { %s } ;' % (nv, lens[0], lens[1], lens[0], lens[1])
+    if take_n is not None:
+        if not zipped:
+            raise Unsupported('D1f: take() on something else than a zip of slice iterators: ' + orig)
+        log.append('D1f `.take(%s)` -> index bound min(.., %s)' % (take_n, take_n))
+        src += 'let %s = if %s < %s { %s } else { %s } ;' % (nv, take_n, nv, take_n, nv)
     src += 'let mut %s : usize = 0 ; while %s < %s' % (iv, iv, nv)
     head = toks_of(src, False)
     index = iv if not rev else '%s - 1 - %s' % (nv, iv)
@@ -942,6 +966,67 @@ def rule_d11c(toks, log):
                     out = out[:i] + new + out[e1 + 2:]
                     i += len(new)
                     continue
+        i += 1
+    return out
+
+
+def rule_d11d(toks, log):
+    """`( A OP X )` -- the parenthesised expression consists of exactly these three real tokens, OP one of `/ % + - *`,
+    A and X each either `self` in a method whose receiver is the shared reference `&self` (after D2: first parameter
+    `self_ : &T`) or a parameter declared `P : & ['lt] T` (not `&mut`, T not a primitive integer, not a slice), i.e. BOTH
+    operands are references ==> `( core::ops::Tr::m ( A , X ) )`.  Same reason and same justification as D11 / D14b: this Verus build fails with
+    an internal error (`codegen_select_candidate failed`) on an overloaded operator whose left operand is a reference, and
+    the rewrite is Rust's own definition of the operator for non-primitive operands (integer/src/div_ops.rs
+    `(self % divisor).is_zero()`).  Any other shape leaves the tokens untouched."""
+    out = list(toks)
+    refs = set()
+    # the signature: real tokens from `fn` up to the body `{`
+    f = None
+    for k, t in enumerate(out):
+        if _is(t, 'fn') and not t[2]:
+            f = k
+            break
+    if f is None:
+        return out
+    po = None
+    for k in range(f, len(out)):
+        if out[k][2]:
+            continue
+        if _is(out[k], '('):
+            po = k
+            break
+        if _is(out[k], '{'):
+            break
+    if po is None:
+        return out
+    pc = _match_close(out, po)
+    params = [x for x in out[po + 1:pc] if not x[2]]
+    for part in _split_top(params):
+        if len(part) >= 2 and _is(part[0], '&') and _is(part[1], 'self'):
+            refs.add('self')
+            continue
+        if len(part) >= 4 and part[0][0] == 'id' and _is(part[1], ':') and _is(part[2], '&'):
+            r = 3
+            if r < len(part) and part[r][0] == 'id' and part[r][1].startswith("'"):      # lifetime
+                r += 1
+            if r < len(part) and part[r][0] == 'id' and part[r][1] not in ('mut',) + _D14C_PRIMS:
+                refs.add(part[0][1])
+    if not refs:
+        return out
+    i = 0
+    while i + 4 < len(out):
+        if (out[i][0] == 'p' and out[i][1] == '(' and not out[i][2]
+                and out[i + 1][0] == 'id' and out[i + 1][1] in refs and not out[i + 1][2]
+                and out[i + 2][0] == 'p' and out[i + 2][1] in _D11_OPS and not out[i + 2][2]
+                and out[i + 3][0] == 'id' and not out[i + 3][2] and out[i + 3][1] in refs
+                and out[i + 4][0] == 'p' and out[i + 4][1] == ')' and not out[i + 4][2]):
+            op = out[i + 2][1]
+            log.append('D11d `%s` -> core::ops::%s(..)' % (_txt(out[i:i + 5])[:80], _D11_OPS[op].replace(' ', '')))
+            new = [out[i]] + toks_of('core :: ops :: %s (' % _D11_OPS[op], False) + [out[i + 1], T('p', ','), out[i + 3], T('p', ')'),
+                                                                                     out[i + 4]]
+            out = out[:i] + new + out[i + 5:]
+            i += len(new)
+            continue
         i += 1
     return out
 
@@ -1506,6 +1591,52 @@ def rule_d15(toks, log):
 
 
 # ---------------------------------------------------------------------------------------
+# D15c: `Y.iter().copied().filter(|&c| c != C).collect()` on a byte slice
+
+def rule_d15c(toks, log):
+    """`Y . iter ( ) . copied ( ) . filter ( | & c | c != C ) . collect ( )` with Y and c single identifiers, C a literal or
+    a single identifier (real tokens only) ==> `__collect_ne ( Y , C )`.  Verus (this build) has no specification for
+    `Iterator::copied` / `collect`.  The helper `__collect_ne(s: &[u8], c: u8) -> Vec<u8>` is NOT trusted: the unit
+    provides it as an exec function with an index loop and the contract `ret@ == strip_byte(s@, c)` (the elements of s
+    different from c, in order; contracts/lib/parse_filter.rs), verified in the same run.  Trusted (as for D1 / D15): the
+    meaning of `slice::Iter` + `copied` + `filter` with a pure closure + `collect::<Vec<u8>>()` in core/alloc.  Any other
+    shape is left untouched (Verus then rejects it)."""
+    pat = ['.', 'iter', '(', ')', '.', 'copied', '(', ')', '.', 'filter', '(', '|', '&', None, '|', None, '!=', None, ')',
+           '.', 'collect', '(', ')']
+    out = list(toks)
+    i = 1
+    while i + len(pat) <= len(out):
+        w = out[i:i + len(pat)]
+        if any(x[2] for x in w) or not all(p_ is None or _is(x, p_) for x, p_ in zip(w, pat)) \
+                or w[13][0] != 'id' or w[15] != w[13] or w[17][0] not in ('id', 'lit', 'int', 'num') \
+                or out[i - 1][0] != 'id' or out[i - 1][2] \
+                or (i >= 2 and out[i - 2][0] == 'p' and out[i - 2][1] in ('.', '::', ')', ']', '?')):
+            i += 1
+            continue
+        y, c = out[i - 1][1], w[17][1]
+        log.append('D15c `%s` -> `__collect_ne(%s, %s)` (helper verified in the unit)' % (_txt(out[i - 1:i + len(pat)]), y, c))
+        new = toks_of('__collect_ne ( %s ,' % y, False) + [w[17]] + [T('p', ')')]
+        out = out[:i - 1] + new + out[i + len(pat):]
+        i = i - 1 + len(new)
+    # the same chain WITHOUT the filter (what is left when a code change drops it): `Y . iter ( ) . copied ( ) . collect ( )`
+    # ==> `__collect_copy ( Y )` (verified helper, `ret@ == s@`), so that such a change is judged by the contract
+    pat2 = ['.', 'iter', '(', ')', '.', 'copied', '(', ')', '.', 'collect', '(', ')']
+    i = 1
+    while i + len(pat2) <= len(out):
+        w = out[i:i + len(pat2)]
+        if any(x[2] for x in w) or not all(_is(x, p_) for x, p_ in zip(w, pat2)) or out[i - 1][0] != 'id' or out[i - 1][2] \
+                or (i >= 2 and out[i - 2][0] == 'p' and out[i - 2][1] in ('.', '::', ')', ']', '?')):
+            i += 1
+            continue
+        y = out[i - 1][1]
+        log.append('D15c `%s` -> `__collect_copy(%s)` (helper verified in the unit)' % (_txt(out[i - 1:i + len(pat2)]), y))
+        new = toks_of('__collect_copy ( %s )' % y, False)
+        out = out[:i - 1] + new + out[i + len(pat2):]
+        i = i - 1 + len(new)
+    return out
+
+
+# ---------------------------------------------------------------------------------------
 # D16: mutable sub-slice of a boxed slice (directive `#[box_slice(P)]` in the contract block)
 
 def rule_d16(toks, log):
@@ -1791,6 +1922,113 @@ def rule_d1d(toks, log):
 
 
 # ---------------------------------------------------------------------------------------
+# D11d: overloaded operator whose operand is a LOCAL OF REFERENCE TYPE (directive `#[ref_operand(a, b)]`)
+
+def rule_d11d(toks, log):
+    """Directive `#[ref_operand(a, b, ..)]` (annotation tokens; a, b identifiers of locals / pattern bindings whose type is a
+    reference, e.g. `&UBig`): every real-token `X OP Y` with X and Y single identifiers, at least one of them listed,
+    OP one of `* / %` (followed by `;`, `)`, `}`, `,`, `+`, `-` or an annotation) or `+ -` (followed by `;`, `)`, `}`, `,` or
+    an annotation), preceded by `=`, `(`, `{`, `}`, `;`, `,` or an annotation ==> `core::ops::Tr::m(X, Y)`.
+    Same reason and same justification as D11 (Verus crashes on overloaded operators with reference operands; the rewrite
+    is Rust's own definition of the operator; the precedence context is shape-checked).  A listed identifier that occurs in
+    no such expression ==> unsupported."""
+    i = 0
+    while i + 3 < len(toks):
+        if toks[i][2] and _is(toks[i], '#') and _is(toks[i + 1], '[') and _is(toks[i + 2], 'ref_operand') and _is(toks[i + 3], '('):
+            break
+        i += 1
+    else:
+        return toks
+    ce = _match_close(toks, i + 3)
+    if not (ce + 1 < len(toks) and _is(toks[ce + 1], ']')):
+        raise Unsupported('D11d: malformed ref_operand directive')
+    names = []
+    for part in _split_top(toks[i + 4:ce]):
+        if len(part) != 1 or part[0][0] != 'id':
+            raise Unsupported('D11d: ref_operand takes identifiers')
+        names.append(part[0][1])
+    out = toks[:i] + toks[ce + 2:]
+    hit = set()
+    k = 1
+    while k + 2 < len(out):
+        a, o, b = out[k], out[k + 1], out[k + 2]
+        if a[0] == 'id' and b[0] == 'id' and o[0] == 'p' and o[1] in _D11_OPS and not (a[2] or o[2] or b[2]) \
+                and (a[1] in names or b[1] in names) \
+                and (out[k - 1][2] or (out[k - 1][0] == 'p' and out[k - 1][1] in ('=', '(', '{', '}', ';', ','))) \
+                and k + 3 < len(out):
+            nxt = out[k + 3]
+            follow = (';', ')', '}', ',', '+', '-') if o[1] in ('*', '/', '%') else (';', ')', '}', ',')
+            if nxt[2] or (nxt[0] == 'p' and nxt[1] in follow):
+                log.append('D11d `%s %s %s` -> core::ops::%s(..) (reference-typed operand)' % (
+                    a[1], o[1], b[1], _D11_OPS[o[1]].replace(' ', '')))
+                new = toks_of('core :: ops :: %s ( %s , %s )' % (_D11_OPS[o[1]], a[1], b[1]), False)
+                out = out[:k] + new + out[k + 3:]
+                hit.update(x for x in (a[1], b[1]) if x in names)
+                k += len(new)
+                continue
+        k += 1
+    missing = [n for n in names if n not in hit]
+    if missing:
+        raise Unsupported('D11d: no `X OP Y` expression with operand %s' % ', '.join(missing))
+    return out
+
+
+# ---------------------------------------------------------------------------------------
+# D1e: `let G = X . rchunks ( N ) ;` .. `G . len ( )` .. `for P in G . rev ( ) { B }`
+
+def _rchunks_locals(toks):
+    """names G of locals produced by rule_d1e: `let G = __rchunks ( X , N ) ;` (generated tokens)."""
+    res = set()
+    for i in range(len(toks) - 4):
+        if _is(toks[i], 'let') and toks[i + 1][0] == 'id' and _is(toks[i + 2], '=') and _is(toks[i + 3], '__rchunks') \
+                and _is(toks[i + 4], '(') and not toks[i + 3][2]:
+            res.add(toks[i + 1][1])
+    return res
+
+
+def rule_d1e(toks, log):
+    """`let G = X . rchunks ( N ) ;` (G, X identifiers, N a literal or a place path `id ( . id )*`, real tokens only)
+    ==> `let G = __rchunks ( X , N ) ;`.  Every other real-token use of G must be `G . len ( )` (kept: a method of the
+    helper struct) or the iterator `G . rev ( )` of a `for` loop (lowered by D1/D1e to an index loop with
+    `P = G . __from_front ( k )`); any other use ==> unsupported.  Verus has no model of `core::slice::RChunks`.  The helper
+    struct `__RChunks { v, n }` with `__rchunks`, `len`, `__from_front` (contracts/lib/parse_rchunks.rs) consists of exec
+    functions VERIFIED in the same unit against their stated meaning; trusted (as for D1): that meaning IS the definition
+    of `<[T]>::rchunks` / `RChunks::len` / `RChunks::next_back` in core (chunks of N elements counted from the END of
+    the slice; the chunk at the FRONT has `len % N` elements if that is not zero; panic for N == 0 => `requires`)."""
+    i = 0
+    done = set()
+    while i + 8 < len(toks):
+        if _is(toks[i], 'let') and not toks[i][2] and toks[i + 1][0] == 'id' and _is(toks[i + 2], '=') \
+                and toks[i + 3][0] == 'id' and _is(toks[i + 4], '.') and _is(toks[i + 5], 'rchunks') and _is(toks[i + 6], '(') \
+                and not any(x[2] for x in toks[i:i + 7]):
+            e = _match_close(toks, i + 6)
+            arg = toks[i + 7:e]
+            g, x = toks[i + 1][1], toks[i + 3][1]
+            shape = len(arg) >= 1 and not any(a[2] for a in arg) and (
+                (len(arg) == 1 and arg[0][0] in ('id', 'lit', 'int', 'num'))
+                or (len(arg) % 2 == 1 and all((a[0] == 'id') if k % 2 == 0 else _is(a, '.') for k, a in enumerate(arg))))
+            if not shape or not (e + 1 < len(toks) and _is(toks[e + 1], ';')):
+                raise Unsupported('D1e: rchunks shape `%s`' % _txt(toks[i:e + 2]))
+            for j in range(len(toks)):
+                if j == i + 1 or toks[j][2] or toks[j][0] != 'id' or toks[j][1] != g:
+                    continue
+                is_len = j + 4 < len(toks) and _is(toks[j + 1], '.') and _is(toks[j + 2], 'len') and _is(toks[j + 3], '(') \
+                    and _is(toks[j + 4], ')')
+                is_rev = j >= 1 and _is(toks[j - 1], 'in') and j + 4 < len(toks) and _is(toks[j + 1], '.') \
+                    and _is(toks[j + 2], 'rev') and _is(toks[j + 3], '(') and _is(toks[j + 4], ')')
+                if not (is_len or is_rev) or j < i:
+                    raise Unsupported('D1e: RChunks local `%s` used other than as `%s.len()` / `for P in %s.rev()`' % (g, g, g))
+            log.append('D1e `let %s = %s.rchunks(%s)` -> `let %s = __rchunks(%s, %s)` (helper struct verified in the unit)' % (
+                g, x, _txt(arg), g, x, _txt(arg)))
+            new = toks_of('__rchunks ( %s ,' % x, False) + arg + [T('p', ')')]
+            toks = toks[:i + 3] + new + toks[e + 1:]
+            i += 3 + len(new)
+            continue
+        i += 1
+    return toks
+
+
+# ---------------------------------------------------------------------------------------
 # D21: indexed store whose right-hand side is a call, with a proof step between the call and the store
 # (directive `#[after_rhs]` in the annotation that follows the statement)
 
@@ -1863,6 +2101,244 @@ def rule_d21(toks, log):
 
 
 # ---------------------------------------------------------------------------------------
+# D22 / D23: a by-value reverse traversal of a local Vec, and a stored `iter().enumerate().rev()` iterator
+# (fmt/non_power_two.rs PreparedLarge::write / PreparedLarge::new)
+
+def _real_is(tok, text):
+    return not tok[2] and _is(tok, text)
+
+
+def _for_header(out, i):
+    """`for PAT in EXPR [annotation tokens] {`: returns (pat, expr, ann_start, brace, close) or None."""
+    j = i + 1
+    d = 0
+    while j < len(out) and not (d == 0 and _real_is(out[j], 'in')):
+        if out[j][0] == 'p' and out[j][1] in rtok.OPEN:
+            d += 1
+        elif out[j][0] == 'p' and out[j][1] in rtok.CLOSE:
+            d -= 1
+        j += 1
+    if j >= len(out):
+        return None
+    k = j + 1
+    d = 0
+    while k < len(out) and not (d == 0 and (_is(out[k], '{') or out[k][2])):
+        if out[k][0] == 'p' and out[k][1] in rtok.OPEN:
+            d += 1
+        elif out[k][0] == 'p' and out[k][1] in rtok.CLOSE:
+            d -= 1
+        k += 1
+    b = k
+    while b < len(out) and not (_is(out[b], '{') and not out[b][2]):
+        b += 1
+    if b >= len(out):
+        return None
+    return out[i + 1:j], out[j + 1:k], k, b, _match_close(out, b)
+
+
+def rule_d23(toks, log):
+    """`for PAT in V . drain ( .. ) . rev ( ) {B}` (V ONE identifier bound by `let mut V` in this function and not
+    mentioned by any real token after the loop) ==> `while V . len ( ) > 0 { let PAT = V . pop ( ) . unwrap ( ) ; B }`.
+    `Vec::drain(..)` yields every element by value, `.rev()` from the back: the k-th item is what the k-th `pop()`
+    returns (alloc, trusted as for D1).  The two differ only in what V holds after an EARLY exit (Drain's drop clears V,
+    the pop loop leaves the unvisited front) -- unobservable because V is a local that is not used after the loop."""
+    out = list(toks)
+    i = 0
+    while i < len(out):
+        if not _real_is(out[i], 'for'):
+            i += 1
+            continue
+        h = _for_header(out, i)
+        if h is None:
+            i += 1
+            continue
+        pat, expr, k, b, e = h
+        shape = ['.', 'drain', '(', '..', ')', '.', 'rev', '(', ')']
+        if not (len(expr) == 10 and expr[0][0] == 'id' and all(_is(x, y) for x, y in zip(expr[1:], shape))
+                and not any(x[2] for x in expr)):
+            i += 1
+            continue
+        v = expr[0][1]
+        bound = any(_real_is(out[a], 'let') and _real_is(out[a + 1], 'mut') and not out[a + 2][2] and out[a + 2][1] == v
+                    and out[a + 2][0] == 'id' for a in range(0, i - 2))
+        later = any((not x[2]) and x[0] == 'id' and x[1] == v for x in out[e + 1:])
+        if not bound or later:
+            raise Unsupported('D23: `%s` is not a `let mut` local that dies with the loop' % v)
+        head = toks_of('while %s . len ( ) > 0' % v, False)
+        inner = toks_of('let %s = %s . pop ( ) . unwrap ( ) ;' % (_txt(pat), v), False)
+        log.append('D23 `for %s in %s` -> `while %s.len() > 0 { let %s = %s.pop().unwrap(); .. }`' % (
+            _txt(pat), _txt(expr), v, _txt(pat), v))
+        out = out[:i] + head + out[k:b + 1] + inner + out[b + 1:]
+        i += len(head)
+    return out
+
+
+def rule_d22(toks, log):
+    """`let mut X = P . iter ( ) . enumerate ( ) . rev ( ) ;` (X, P identifiers) ==> `let mut X = __enum_rev ( & P ) ;`
+    and every later `for PAT in X {B}` ==> `while X . __has_next ( ) { let PAT = X . next ( ) . unwrap ( ) ; B }`;
+    `X . next ( )` in between stays as written.  `__enum_rev`, `__EnumRev::next` and `__has_next` are NOT trusted: the unit
+    provides them as exec functions (lib/fmtl_iter.rs) verified in the same run against the definition of
+    `Rev<Enumerate<slice::Iter>>::next` (pairs (k, &P[k]) for k = len-1 down to 0); trusted, as for D1: that core's
+    adapters follow that definition, and that a `for` loop calls `next()` until `None`."""
+    out = list(toks)
+    names = []
+    i = 0
+    shape = ['.', 'iter', '(', ')', '.', 'enumerate', '(', ')', '.', 'rev', '(', ')', ';']
+    while i + 17 < len(out):
+        w = out[i:i + 18]
+        if _real_is(w[0], 'let') and _real_is(w[1], 'mut') and w[2][0] == 'id' and _real_is(w[3], '=') and w[4][0] == 'id' \
+                and all(_real_is(x, y) for x, y in zip(w[5:], shape)) and not w[2][2] and not w[4][2]:
+            x, p_ = w[2][1], w[4][1]
+            new = toks_of('let mut %s = __enum_rev ( & %s ) ;' % (x, p_), False)
+            log.append('D22 `let mut %s = %s.iter().enumerate().rev();` -> `__enum_rev(&%s)` (helper verified in the unit)' % (x, p_, p_))
+            out = out[:i] + new + out[i + 18:]
+            names.append(x)
+            i += len(new)
+            continue
+        i += 1
+    if not names:
+        return out
+    i = 0
+    while i < len(out):
+        if not _real_is(out[i], 'for'):
+            i += 1
+            continue
+        h = _for_header(out, i)
+        if h is None:
+            i += 1
+            continue
+        pat, expr, k, b, e = h
+        if not (len(expr) == 1 and expr[0][0] == 'id' and not expr[0][2] and expr[0][1] in names):
+            i += 1
+            continue
+        x = expr[0][1]
+        head = toks_of('while %s . __has_next ( )' % x, False)
+        inner = toks_of('let %s = %s . next ( ) . unwrap ( ) ;' % (_txt(pat), x), False)
+        log.append('D22 `for %s in %s` -> `while %s.__has_next() { let %s = %s.next().unwrap(); .. }`' % (_txt(pat), x, x, _txt(pat), x))
+        out = out[:i] + head + out[k:b + 1] + inner + out[b + 1:]
+        i += len(head)
+    return out
+
+
+# ---------------------------------------------------------------------------------------
+# D24: inlining of a local, non-escaping closure (fmt/non_power_two.rs PreparedDword::new `get_digit`,
+# fmt/mod.rs InRadixWriter::format_prepared `write_digits`)
+
+def rule_d24(toks, log):
+    """Directive `#[inline_closure(NAME)]` in the contract block.  Shape (anything else => "unsupported"):
+    `let mut NAME = | P1 [: T1] , .. | { BODY } ;` as a statement of the function body, not `move`; every other real
+    occurrence of NAME is a call `NAME ( A1 , .. )` with as many arguments, either (a) a statement `NAME ( .. ) ;` or
+    (b) `NAME ( .. ) ?` -- (b) for all calls or none.  BODY contains no `return`, and a `?` only in case (b).
+    ==> the `let` is dropped and every call becomes the block `{ let P1 [: T1] = A1 ; .. BODY }`, in case (b)
+    `{ let .. ; BODY ? }` with the call's `?` moved onto the body's tail expression (no `let` for an
+    argument that is the bare identifier the parameter is named after: the body then acts on that very variable).
+    This is beta-reduction of a closure that is only ever called: a non-`move` closure reads and writes the captured
+    places themselves, and the borrow checker excludes any other access to a mutably captured place between the closure's
+    creation and its last call.  Case (b) additionally relies on `From<E> for E` being the identity: a `?` inside the
+    closure leaves the closure with `Err(e)` and the call's own `?` returns `Err(From::from(e))` from the function -- the
+    inlined `?` returns the same value provided the closure's error type is the function's (here: both fmt::Error; the
+    inlined text would not type-check against the function's return type otherwise unless a From impl existed)."""
+    # directive
+    names = []
+    out = []
+    i = 0
+    while i < len(toks):
+        t = toks[i]
+        if t[2] and _is(t, '#') and i + 6 < len(toks) and _is(toks[i + 1], '[') and _is(toks[i + 2], 'inline_closure') \
+                and _is(toks[i + 3], '(') and toks[i + 4][0] == 'id' and _is(toks[i + 5], ')') and _is(toks[i + 6], ']'):
+            names.append(toks[i + 4][1])
+            i += 7
+            continue
+        out.append(t)
+        i += 1
+    for name in names:
+        out = _d24_inline(out, name, log)
+    return out
+
+
+def _d24_inline(out, name, log):
+    # the definition
+    d = None
+    for i in range(len(out) - 4):
+        if _real_is(out[i], 'let') and _real_is(out[i + 1], 'mut') and out[i + 2][0] == 'id' and out[i + 2][1] == name \
+                and not out[i + 2][2] and _real_is(out[i + 3], '=') and _real_is(out[i + 4], '|'):
+            d = i
+            break
+    if d is None:
+        raise Unsupported('D24: no `let mut %s = |..| {..};`' % name)
+    j = d + 5
+    while j < len(out) and not _real_is(out[j], '|'):
+        if out[j][0] == 'p' and out[j][1] in ('{', '}', ';', '('):
+            raise Unsupported('D24: parameter list shape of `%s`' % name)
+        j += 1
+    params = [p for p in _split_top(out[d + 5:j]) if p]
+    if not (j + 1 < len(out) and _real_is(out[j + 1], '{')):
+        raise Unsupported('D24: body of `%s` is not a block' % name)
+    be = _match_close(out, j + 1)
+    if not (be + 1 < len(out) and _real_is(out[be + 1], ';')):
+        raise Unsupported('D24: `%s` definition is not a statement' % name)
+    body = out[j + 2:be]
+    if any(_real_is(x, 'return') or _real_is(x, 'move') for x in out[d:be]):
+        raise Unsupported('D24: `return`/`move` in closure `%s`' % name)
+    has_q = any(_real_is(x, '?') for x in body)
+    pnames = []
+    for p in params:
+        if not (p[0][0] == 'id' and (len(p) == 1 or _is(p[1], ':'))):
+            raise Unsupported('D24: parameter pattern `%s`' % _txt(p))
+        pnames.append(p[0][1])
+    rest = out[:d] + out[be + 2:]
+    res = []
+    i = 0
+    ncalls = 0
+    while i < len(rest):
+        t = rest[i]
+        if t[0] == 'id' and t[1] == name and not t[2]:
+            if not (i + 1 < len(rest) and _real_is(rest[i + 1], '(')) or (i > 0 and rest[i - 1][0] == 'p' and rest[i - 1][1] in ('.', '::', '&')):
+                raise Unsupported('D24: closure `%s` escapes (used other than by a call)' % name)
+            ce = _match_close(rest, i + 1)
+            args = [a for a in _split_top(rest[i + 2:ce]) if a]
+            if len(args) != len(params):
+                raise Unsupported('D24: argument count of `%s`' % name)
+            nxt = rest[ce + 1] if ce + 1 < len(rest) else None
+            prev_ok = i == 0 or (rest[i - 1][0] == 'p' and rest[i - 1][1] in (';', '{', '}')) or rest[i - 1][2]
+            if not prev_ok or nxt is None:
+                raise Unsupported('D24: call of `%s` is not a statement' % name)
+            if has_q:
+                if not _real_is(nxt, '?'):
+                    raise Unsupported('D24: closure `%s` uses `?` but a call is not followed by `?`' % name)
+            elif not _real_is(nxt, ';'):
+                raise Unsupported('D24: call of `%s` is not a statement `%s(..);`' % (name, name))
+            blk = [T('p', '{')]
+            for p, a in zip(params, args):
+                if len(a) == 1 and a[0][0] == 'id' and a[0][1] == p[0][1] and len(p) == 1:
+                    continue
+                blk += toks_of('let', False) + p + [T('p', '=')] + a + [T('p', ';')]
+            if has_q:
+                # the call's own `?` goes onto the tail expression of the inlined body (`{ .. TAIL ? }`): a block statement
+                # cannot be followed by `?`; the body must end in a tail expression
+                last = [x for x in body if not x[2]][-1]
+                if last[0] == 'p' and last[1] in (';', '}'):
+                    raise Unsupported('D24: closure `%s` with `?` does not end in a tail expression' % name)
+                blk += body + [T('p', '?'), T('p', '}')]
+                res += blk
+                ncalls += 1
+                i = ce + 2
+                continue
+            blk += body + [T('p', '}')]
+            res += blk
+            ncalls += 1
+            i = ce + 1
+            continue
+        res.append(t)
+        i += 1
+    if ncalls == 0:
+        raise Unsupported('D24: closure `%s` is never called' % name)
+    log.append('D24 closure `%s` (%d parameter(s)%s) inlined at %d call site(s)' % (
+        name, len(params), ', body with `?`' if has_q else '', ncalls))
+    return res
+
+
+# ---------------------------------------------------------------------------------------
 
 def lower(toks, marks, opts=None):
     """toks: [(kind,text)], marks: [bool]; returns ([(kind,text)], log)."""
@@ -1882,16 +2358,23 @@ def lower(toks, marks, opts=None):
     ts = rule_d11(ts, log)
     ts = rule_d11b(ts, log)
     ts = rule_d11c(ts, log)
+    ts = rule_d11d(ts, log)
+    ts = rule_d11d(ts, log)
     ts = rule_d12(ts, log)
     ts = rule_d13(ts, log)
     ts = rule_d14(ts, log)
     ts = rule_d14b(ts, log)
     ts = rule_d15(ts, log)
+    ts = rule_d15c(ts, log)
     ts = rule_d16(ts, log)
     ts = rule_d17(ts, log)
     ts = rule_d18(ts, log)
     ts = rule_d7(ts, log)
     ts = rule_d1d(ts, log)
+    ts = rule_d1e(ts, log)
+    ts = rule_d24(ts, log)
+    ts = rule_d22(ts, log)
+    ts = rule_d23(ts, log)
     ts = rule_d1(ts, log)
     ts = rule_d9(ts, log)
     ts = rule_d8(ts, log)
